@@ -4,6 +4,7 @@ from pyvc.spec import (contract, Rec, Opt, PowerT, Int, Real, Bool, StrId, Opaqu
 from contracts.common import (BoundsT, OptBoundsT, ProposalBoundsT, SystemBoundsT, zero, in_zone, usable)
 
 M = "frequenz.sdk.microgrid._power_managing._matryoshka"
+B = "frequenz.sdk.microgrid._power_managing._bounds"
 PROPOSAL = "frequenz.sdk.microgrid._power_managing._base_classes:Proposal"
 
 ProposalT = Rec(PROPOSAL, source_id=StrId, preferred_power=Opt(PowerT), bounds=ProposalBoundsT,
@@ -57,3 +58,113 @@ class CalcTargetPower:
         ),
     }
     ensures = dict(envelope="envelope(result, system_bounds)")
+
+
+# ---------------------------------------------------------------------------------------
+# C04: the documented narrowing and the documented choice of the target, written from the
+# property statement (not from the code): running bounds G and running target T along the
+# proposals in descending priority.
+# ---------------------------------------------------------------------------------------
+
+def p_lower(p, lo):
+    return p.bounds.lower if p.bounds.lower is not None else lo
+
+
+def p_upper(p, hi):
+    return p.bounds.upper if p.bounds.upper is not None else hi
+
+
+def skipped(lo, hi, ex, p):
+    """A proposal whose bounds lie wholly inside the exclusion zone does not narrow anything."""
+    return in_zone(p_lower(p, lo), ex) and in_zone(p_upper(p, hi), ex)
+
+
+def carve_lo(lo, ex):
+    return ex.upper if in_zone(lo, ex) else lo
+
+
+def carve_hi(hi, ex):
+    return ex.lower if in_zone(hi, ex) else hi
+
+
+def narrow(lo, hi, ex, p):
+    """[lo, hi] intersected with p's bounds, exclusion zone carved out at the ends."""
+    return ((lo, hi) if skipped(lo, hi, ex, p)
+            else (carve_lo(max(lo, p_lower(p, lo)), ex), carve_hi(min(hi, p_upper(p, hi)), ex)))
+
+
+def compatible(lo, hi, ex, p):
+    """p's bounds leave a usable value in [lo, hi] (the conflict-free regime of C04)."""
+    return skipped(lo, hi, ex, p) or (
+        max(lo, p_lower(p, lo)) <= min(hi, p_upper(p, hi))
+        and not (in_zone(max(lo, p_lower(p, lo)), ex) and in_zone(min(hi, p_upper(p, hi)), ex)))
+
+
+def nearest(pref, lo, hi, ex):
+    """The usable value of [lo, hi] minus the zone that is closest to pref (lower one on a tie);
+    a zero request is kept as it is.  Requires lo <= hi with lo, hi not strictly inside the zone."""
+    return (pref if usable(pref, lo, hi, ex) or (pref == zero() and lo <= pref <= hi)
+            else lo if pref < lo
+            else hi if pref > hi
+            else (ex.upper if ex.upper - pref < pref - ex.lower else ex.lower))
+
+
+def choose(prev, pref, lo, hi, ex):
+    return prev if pref is None else nearest(pref, lo, hi, ex)
+
+
+def higher_count_ok(s, n, k, priority):
+    """k = number of proposals (sorted descending) with priority strictly above `priority`."""
+    return (0 <= k <= n and forall(0, k, lambda j: s[j].priority > priority)
+            and (k == n or s[k].priority <= priority))
+
+
+GHOST_SEQS = dict(
+    G=dict(over="sorted(proposals, reverse=True)", shape=None,  # shape filled below
+           init="(sys_lower(system_bounds), sys_upper(system_bounds))",
+           step="narrow(prev[0], prev[1], sys_excl(system_bounds), elem)"),
+    T=dict(over="sorted(proposals, reverse=True)", shape=None,
+           init="zero()",
+           step="choose(prev, elem.preferred_power, G(k)[0], G(k)[1], sys_excl(system_bounds))"),
+)
+
+from pyvc.spec import Tup  # noqa: E402
+
+GHOST_SEQS["G"]["shape"] = Tup(PowerT, PowerT)
+GHOST_SEQS["T"]["shape"] = PowerT
+
+C04_REQUIRES = dict(
+    zero_inside="system_bounds.inclusion_bounds is None or "
+                "system_bounds.inclusion_bounds.lower <= zero() <= system_bounds.inclusion_bounds.upper",
+    # documented invariant of SystemBounds: the exclusion zone is a subset of the inclusion range
+    excl_within_incl="not in_zone(sys_lower(system_bounds), sys_excl(system_bounds))"
+                     " and not in_zone(sys_upper(system_bounds), sys_excl(system_bounds))",
+    # the quantifier of C04: conflict-free proposal sets
+    conflict_free="forall(0, len(proposals), lambda j: compatible(G(j)[0], G(j)[1], sys_excl(system_bounds),"
+                  " sorted(proposals, reverse=True)[j]))",
+)
+
+
+@contract(f"{M}:Matryoshka._calc_target_power", case="c04")
+class CalcTargetPowerC04:
+    self_shape = MatryoshkaSelf
+    shapes = dict(proposals=SetSeq(ProposalT), system_bounds=SystemBoundsT)
+    result = PowerT
+    native_opaque = {"component_ids": frozenset({1})}
+    ghost_seqs = GHOST_SEQS
+    requires = C04_REQUIRES
+    instantiate = {f"{B}:clamp_to_bounds": [dict(x="lower_bound"), dict(x="upper_bound"),
+                                                dict(x="exclusion_bounds.lower"), dict(x="exclusion_bounds.upper")]}
+    loops = {
+        "for next_proposal in sorted(proposals, reverse=True)": dict(
+            idx="_i",
+            invariant=dict(
+                excl_is_system="exclusion_bounds == sys_excl(system_bounds)",
+                running_bounds="lower_bound == G(_i)[0] and upper_bound == G(_i)[1]",
+                running_ordered="lower_bound <= upper_bound",
+                endpoints_clear="not in_zone(lower_bound, exclusion_bounds) and not in_zone(upper_bound, exclusion_bounds)",
+                running_target="target_power == T(_i)",
+            ),
+        ),
+    }
+    ensures = dict(target_is_documented_choice="result == T(len(proposals))")
